@@ -71,9 +71,18 @@ def call_builtin(world, eng, p, h, args, kws):
             if isinstance(x, Host) and x.kind in ('source', 'muxobservable', 'observable', 'connectable'):
                 return [(p, bool(getattr(x, 'is_mux', x.kind == 'muxobservable')))]
         if isinstance(c, PyType):
+            if isinstance(x, SVal) and c.name == 'int':
+                return [(p, SBool(Or(V.is_VInt(x.t), V.is_VBool(x.t))))]          # bool is a subclass of int
             r = eng.type_is(p, SType(x), c) if isinstance(x, SVal) else static_isinstance(x, c.name)
             if r is None: raise Unsupported(f'isinstance({x!r}, {c})')
             return [(p, r if isinstance(r, bool) else SBool(r))]
+        if isinstance(c, Host) and c.kind == 'builtin' and isinstance(getattr(c, 'obj', None), type) and c.obj.__module__ in ('builtins', 'collections', 'decimal', 'fractions', 'datetime', 'array'):
+            # a builtin / stdlib class that is none of the value kinds modelled explicitly: only an opaque object can be an instance of it
+            if isinstance(x, SVal):
+                f = Function(f'isinstance_{c.obj.__name__}', Val, BoolSort())
+                p.pc.append(Implies(f(x.t), V.is_VObj(x.t) if c.obj.__name__ not in ('frozenset', 'deque', 'list', 'dict', 'set') else Or(V.is_VObj(x.t), V.is_VRef(x.t))))
+                return [(p, SBool(f(x.t)))]
+            return [(p, False)]
         raise Unsupported(f'isinstance({x!r}, {c!r})')
     if n == 'builtins.type':
         x = args[0]
